@@ -64,3 +64,53 @@ Section HiddenFacts.
     probe_after out next h0 p ds d <> fresh out h0 p d.
   Proof. intros Hne. exact Hne. Qed.
 End HiddenFacts.
+
+(* State shared by the WHOLE process (a module-level table, a library-wide setting): one world g for all objects;
+   a call by an object with parameters p on a matrix d returns [wout p g d] and leaves the world [wnext p g d].
+   This is the hidden-state situation with one "object" (the process) whose inputs are the pairs (p, d), so the
+   characterisation carries over: the process-wide state never changes any output of any object exactly when every
+   probe call (any parameters, any matrix) answers after every history of calls - by any objects - as it does in
+   a new interpreter.  (The check runs such probe batteries before / after each sequence and in a new interpreter.) *)
+Section World.
+  Variables P G D O : Type.
+  Variable wout : P -> G -> D -> O.
+  Variable wnext : P -> G -> D -> G.
+  Variable g0 : G.
+
+  Definition world_after (calls : list (P * D)) : G :=
+    fold_left (fun g c => wnext (fst c) g (snd c)) calls g0.
+  Definition world_blind : Prop :=
+    forall calls p d, wout p (world_after calls) d = wout p g0 d.
+
+  Theorem world_probe_characterises :
+    world_blind <-> forall calls p d, wout p (world_after calls) d = wout p g0 d.
+  Proof. unfold world_blind. tauto. Qed.
+
+  (* a battery of probes that is unchanged by every SINGLE call, from every reachable world, is unchanged by every
+     history: it is enough to look before / after each call (what the per-sequence battery does, call by call) *)
+  Theorem world_blind_by_single_steps :
+    (forall calls c p d, wout p (world_after (calls ++ [c])) d = wout p (world_after calls) d) -> world_blind.
+  Proof.
+    intros Hs calls. induction calls as [|c calls IH] using rev_ind; intros p d; [reflexivity|].
+    rewrite Hs. apply IH.
+  Qed.
+
+  (* and under blindness every call of every object answers as in a new interpreter, whatever came before *)
+  Theorem world_blind_outputs calls :
+    world_blind ->
+    forall pre, map (fun c => wout (fst c) (world_after pre) (snd c)) calls
+                = map (fun c => wout (fst c) g0 (snd c)) calls.
+  Proof. intros Hb pre. apply map_ext. intros c. apply Hb. Qed.
+End World.
+
+(* non-vacuity: a library-wide switch that one kind of call turns on is not blind; a world nobody writes is *)
+Example switch_world_not_blind :
+  ~ world_blind unit bool bool bool (fun _ g _ => g) (fun _ g d => orb g d) false.
+Proof. intros H. specialize (H [(tt, true)] tt false). vm_compute in H. discriminate. Qed.
+Example untouched_world_blind : forall (G D O : Type) (wout : unit -> G -> D -> O) g0,
+  world_blind unit G D O wout (fun _ g _ => g) g0.
+Proof.
+  intros G D O wout g0 calls p d. unfold world_after.
+  assert (E : fold_left (fun g (c : unit * D) => g) calls g0 = g0) by (induction calls; auto).
+  cbn. rewrite E. reflexivity.
+Qed.
